@@ -346,11 +346,13 @@ def World.startAction (env : Env) (w : World) (task : Bool) (sp : Spec) : World 
     let r := w.freshAction sp.atype sp.sers
     (r.1.startRec env r.2 sp.fields, r.2)
   | some p =>
-    let u := ((w.acts[p]?).map Act.uuid).getD 0
-    let r := w.nextLevel p
-    let h := r.1.acts.length
-    let w1 : World := { r.1 with acts := r.1.acts ++ [({ uuid := u, level := r.2, atype := sp.atype, sers := sp.sers } : Act)] }
-    (w1.startRec env h sp.fields, h)
+    match w.acts[p]? with
+    | none => (w, p)          -- unreachable: the context always holds a valid handle
+    | some pa =>
+      let r := w.nextLevel p
+      let h := r.1.acts.length
+      let w1 : World := { r.1 with acts := r.1.acts ++ [({ uuid := pa.uuid, level := r.2, atype := sp.atype, sers := sp.sers } : Act)] }
+      (w1.startRec env h sp.fields, h)
 
 /-- `Action.continue_task(task_id=(u, lvl), action_type=.., **fields)` -/
 def World.continueTask (env : Env) (w : World) (u : Nat) (lvl : Level) (sp : Spec) : World × Nat :=
@@ -473,9 +475,11 @@ def execS (env : Env) (cur : Option Exc) (w : World) : Stmt → World × Outcome
   | .serializeAs y x =>
     match (match x with | some x => lookupNat w.vars x | none => w.ctx) with
     | some h =>
-      let u := ((w.acts[h]?).map Act.uuid).getD 0
-      let r := w.nextLevel h
-      ({ r.1 with ids := setNat r.1.ids y (u, r.2) }, .ok)
+      (match w.acts[h]? with
+       | some a =>
+         let r := w.nextLevel h
+         ({ r.1 with ids := setNat r.1.ids y (a.uuid, r.2) }, .ok)
+       | none => (w, .stuck))
     | none => (w, .stuck)
   | .continueWith y sp body =>
     match lookupNat w.ids y with
